@@ -193,3 +193,68 @@ def update (l : List Rule) (old new : Rule) : List Rule × Bool :=
 end Spec
 
 end Casbin.Policy
+
+/-! ## subject-priority ordering (`Model.get_subject_hierarchy_map`, `sort_policies_by_subject_hierarchy`) -/
+namespace Casbin.Policy
+
+/-- a role assignment as `get_subject_hierarchy_map` sees it: (child, parent), names already prefixed with the
+    domain (`get_name_with_domain`) -/
+abbrev HEdge := String × String
+
+inductive HErr | cycle | fuel
+  deriving DecidableEq, Repr, Inhabited
+
+/-- `sorted_sub = unsorted_sub - parent_sub`: the subjects that are not a parent in any remaining assignment -/
+def peelRound (up : List HEdge) (us : List String) : List String :=
+  us.filter fun s => !(up.map (·.2)).contains s
+
+/-- the `while len(unsorted_policy) > 0:` loop; `k` = index of the round, `acc` = levels assigned so far.
+    Fuel: every round removes at least one subject, so `us.length + 1` rounds always suffice (`HErr.fuel` is
+    reported, never defaulted). -/
+def hierarchyLoop : Nat → List HEdge → List String → Nat → List (String × Nat) → Except HErr (List (String × Nat))
+  | _, [], us, k, acc => .ok (acc ++ us.map (·, k))
+  | 0, _ :: _, _, _, _ => .error .fuel
+  | f + 1, e :: up, us, k, acc =>
+    let sorted := peelRound (e :: up) us
+    if sorted.isEmpty then .error .cycle
+    else hierarchyLoop f ((e :: up).filter fun x => !sorted.contains x.1) (us.filter fun s => !sorted.contains s)
+           (k + 1) (acc ++ sorted.map (·, k))
+
+/-- all subjects of the assignments, each once -/
+def subjectsOf (edges : List HEdge) : List String := (edges.flatMap fun e => [e.1, e.2]).eraseDups
+
+/-- `get_subject_hierarchy_map`: subject ↦ level (0 = nobody inherits from it … the roots get the highest level) -/
+def hierarchyMap (edges : List HEdge) : Except HErr (List (String × Nat)) :=
+  let us := subjectsOf edges
+  hierarchyLoop (us.length + 1) edges us 0 []
+
+/-- `subject_hierarchy_map.get(name, 0)` -/
+def levelOf (m : List (String × Nat)) (name : String) : Nat := (m.lookup name).getD 0
+
+/-- stable insertion sort by a numeric key = Python's `sorted(policy, key=…)` -/
+def insertByKey (key : Rule → Nat) (r : Rule) : List Rule → List Rule
+  | [] => [r]
+  | x :: xs => if key x ≤ key r then x :: insertByKey key r xs else r :: x :: xs
+
+def sortByKey (key : Rule → Nat) (l : List Rule) : List Rule := l.foldl (fun acc r => insertByKey key r acc) []
+
+/-- `get_name_with_domain(domain, name)` -/
+def nameWithDomain (domain name : String) : String := domain ++ "::" ++ name
+
+/-- `sort_policies_by_subject_hierarchy` for one assertion: `domIdx` = position of the `p_dom` token, if any;
+    grouping rules `[child, parent]` or `[child, parent, domain]` -/
+def sortBySubjectHierarchy (domIdx : Option Nat) (g : List Rule) (p : List Rule) : Except HErr (List Rule) :=
+  let edges : List HEdge := g.filterMap fun r =>
+    match r with
+    | [c, pa] => some (nameWithDomain "" c, nameWithDomain "" pa)
+    | c :: pa :: d :: _ => some (nameWithDomain d c, nameWithDomain d pa)
+    | _ => none
+  match hierarchyMap edges with
+  | .error e => .error e
+  | .ok m =>
+    let key := fun (r : Rule) =>
+      let d := match domIdx with | none => "" | some i => r.getD i ""
+      levelOf m (nameWithDomain d (r.getD 0 ""))
+    .ok (sortByKey key p)
+
+end Casbin.Policy
